@@ -122,7 +122,10 @@ ErrorClose(r) == LocalClose(Signal(r, "error"))
 \* sends the initial presence when authenticated and not resumed
 OpenSession(r) ==
     LET r1 == Signal([r EXCEPT !.c.session = TRUE,
-                              !.c.iq = IF ~r.c.smResumed /\ r.c.iq = "out" THEN "done" ELSE @], "connected") IN
+                              !.c.iq = IF ~r.c.smResumed /\ r.c.iq = "out" THEN "done" ELSE @,
+                              \* C2sStreamManager::onSessionOpened: a session without stream management
+                              \* replaces any earlier session; its resumption state is forgotten
+                              !.c.canResume = IF r.c.smEnabled THEN @ ELSE FALSE], "connected") IN
     IF r1.c.authed /\ ~r1.c.smResumed THEN SendStanza(r1, "Presence") ELSE r1
 
 StartSmEnable(r) == Emit(SetLst(r, "SmEnable"), "SmEnable")
